@@ -566,9 +566,17 @@ def _dict_method(itp, d, name, args, kwargs):
         raise PyRaise("KeyError", repr(k))
     if name == "update":
         if args:
-            if not isinstance(args[0], dict):
-                raise Unsupported("dict.update(non-dict)")
-            d.update(args[0])
+            if isinstance(args[0], dict):
+                d.update(args[0])
+            else:
+                pairs = itp.iterate_concrete(args[0])
+                if pairs is None:
+                    raise Unsupported("dict.update(symbolic-length iterable)")
+                for pr in pairs:
+                    kv = itp.iterate_concrete(pr) if not isinstance(pr, (tuple, list)) else list(pr)
+                    if kv is None or len(kv) != 2 or isinstance(kv[0], (Sym, SArr)):
+                        raise Unsupported("dict.update(iterable of non-pairs / symbolic keys)")
+                    d[kv[0]] = kv[1]
         d.update(kwargs)
         return None
     if name == "copy":
